@@ -18,6 +18,35 @@ var vfPolys = [][]v2.Vec{
 	{{0, 0}, {3, 0.003}, {0, 0.006}},                            // thin sliver
 }
 
+// polygons whose short edges lie exactly on quadtree split lines of their own
+// (squared, 1.01-scaled) box: the split coordinates are computed with the real
+// box arithmetic so that they coincide bit for bit.
+func vfSplitPoly(k int) []v2.Vec {
+	bb := Box2{v2.Vec{X: -2, Y: -2}, v2.Vec{X: 2, Y: 2}}
+	q := bb.Square().ScaleAboutCenter(1.01)
+	c := q.Center()
+	h := 0.5 * (q.Max.X - q.Min.X)
+	switch k {
+	case 0: // short vertical edge on the vertical centre line
+		return []v2.Vec{{X: -2, Y: -2}, {X: 2, Y: -2}, {X: 2, Y: 2}, {X: c.X, Y: 2}, {X: c.X, Y: 1.8}, {X: -2, Y: 1.8}}
+	case 1: // short horizontal edge on the horizontal centre line
+		return []v2.Vec{{X: -2, Y: -2}, {X: 2, Y: -2}, {X: 2, Y: c.Y}, {X: 1.8, Y: c.Y}, {X: 1.8, Y: 2}, {X: -2, Y: 2}}
+	case 2: // short vertical edge on a level-2 split line (right half)
+		x := c.X + 0.5*h
+		return []v2.Vec{{X: -2, Y: -2}, {X: 2, Y: -2}, {X: 2, Y: 2}, {X: x, Y: 2}, {X: x, Y: 1.9}, {X: -2, Y: 1.9}}
+	default: // short horizontal edge on a level-2 split line (lower half), on the left side
+		y := c.Y - 0.5*h
+		return []v2.Vec{{X: -2, Y: -2}, {X: 2, Y: -2}, {X: 2, Y: 2}, {X: -2, Y: 2}, {X: -2, Y: y}, {X: -1.9, Y: y}, {X: -1.9, Y: y - 0.3}, {X: -2, Y: y - 0.3}}
+	}
+}
+
+func vfPoly(k int) []v2.Vec {
+	if k < len(vfPolys) {
+		return vfPolys[k]
+	}
+	return vfSplitPoly(k - len(vfPolys))
+}
+
 // even-odd crossing oracle on the original vertices (independent of the code under test)
 func vfxInsidePoly(vs []v2.Vec, p v2.Vec) bool {
 	in := false
@@ -43,7 +72,7 @@ func vfxInsidePoly(vs []v2.Vec, p v2.Vec) bool {
 }
 
 func vfPolyRegion(k, grid, cell int) (SDF2, SDF2, v2.Vec) {
-	vs := vfPolys[k]
+	vs := vfPoly(k)
 	fast, err := Polygon2D(append([]v2.Vec{}, vs...))
 	vfAssume(err == nil)
 	slow, err2 := Mesh2DSlow(VertexToLine(append([]v2.Vec{}, vs...), true))
@@ -79,7 +108,7 @@ func vfPolySign(k, grid, cell int) {
 	vfReach("polygon-sign")
 	vfAssume(off)
 	vfAssert(vfIff(wf != 0, ws != 0), "quadtree polygon and brute-force polygon agree on inside/outside")
-	vfAssert(vfIff(ws != 0, vfxInsidePoly(vfPolys[k], p)), "polygon is negative exactly for enclosed points (even-odd crossing oracle)")
+	vfAssert(vfIff(ws != 0, vfxInsidePoly(vfPoly(k), p)), "polygon is negative exactly for enclosed points (even-odd crossing oracle)")
 }
 
 // distance: quadtree search with pruning == brute force
@@ -98,6 +127,12 @@ func vfPolyDist(k, grid, cell int) {
 	vfReach("polygon-dist")
 	tol := vfTol(1e-7, 1e-7)
 	vfAssert(vfAnd(df-ds <= tol, ds-df <= tol), "quadtree polygon distance^2 equals the brute-force distance^2")
+}
+
+func vc_C04_polygon_sign_splitlines() {
+	k := len(vfPolys) + vfCase("poly", 4)
+	grid := 6
+	vfPolySign(k, grid, vfCase("cell", grid*grid))
 }
 
 func vc_C04_polygon_sign() {
